@@ -24,7 +24,11 @@
      C08_swap_refuted_D4  [1, 1.0] -> [1.0, 1] costs 0;   C08_swap_refuted_D16  ["", 1] -> [1, ""] costs 0.
    Not covered by a theorem: which items are paired/removed/inserted BELOW the top level of a mapping under strategy
    none (checked on every run on the implementation by BuildSpec.holds_C08 / same_items), and mappings with keys of
-   mixed type (YAML), where sorted() falls back to comparing str() and the order need not be total. *)
+   mixed type (YAML files, Python objects), where sorted() falls back to comparing str() and the order need not be
+   total: every theorem here keeps the string-key hypothesis (keys_ok / doc_ok).  The property itself does not, so the
+   harness JUDGES such mappings with the same holds_C08 (through the yaml Filetype, BasicBuilder and pydiff): cost
+   invariance and copy-equality must hold; that the PAIRING among equal-cost alternatives follows the key order there
+   is open finding D40 (class BuildSpec.kf_C08_mixed_key_pairing). *)
 From Coq Require Import ZArith List Bool Permutation.
 Require Import GT.Data GT.ScriptSpec GT.BuildModel GT.BuildSpec GT.ScriptModel GT.EqualSpec GT.EqualProofs GT.BuildProofs
                GT.FixedPermProofs.
